@@ -131,9 +131,9 @@ func genOneCRL(g *zv.Gen) {
 	r := g.Rng
 	var used []int // pool certificates the current document was built from
 	emit := func(recs []ocRec, doc []byte) {
-		arg := "X"
+		arg := "X ~"
 		if rr, err := ocRecsFromDoc(doc); err == nil {
-			arg = ocRecsArg(rr)
+			arg = ocRecsArg(rr) + " " + ocNTbl(rr)
 		}
 		g.Emitf("c15 oc-parse %s %s", arg, hx(doc))
 		for q := 0; q < 4; q++ {
@@ -180,7 +180,7 @@ func genOneCRL(g *zv.Gen) {
 				rec = ocRec{issuerName: b64(pc.RawIssuer), serialNumber: b64(sb), enabled: r.Bool()}
 			}
 			if malformed && r.Chance(40) {
-				switch r.Intn(9) {
+				switch r.Intn(12) {
 				case 0:
 					rec = ocRec{null: true}
 				case 1:
@@ -199,6 +199,12 @@ func genOneCRL(g *zv.Gen) {
 					rec.issuerName = ""
 				case 8:
 					rec.serialNumber = ""
+				case 9: // serial with an error after some quanta: the bytes decoded before the error are used
+					rec.serialNumber = b64(pc.SerialNumber.Bytes()) + []string{"!", "A", "=", "AQ=x", "AQI=\n.", "\r\n"}[r.Intn(6)]
+				case 10: // line breaks inside base64 fields are skipped
+					rec.issuerName = rec.issuerName[:len(rec.issuerName)/2] + "\r\n" + rec.issuerName[len(rec.issuerName)/2:]
+				case 11: // subject that is base64 but whose padding is wrong
+					rec.subject = strings.TrimRight(b64(pc.RawSubject), "=") + "="
 				}
 			}
 			recs = append(recs, rec)
@@ -216,6 +222,102 @@ func genOneCRL(g *zv.Gen) {
 	emit(nil, []byte(`[]`))
 	emit(nil, []byte(`{"data":[{}]}`))
 	emit(nil, []byte(`{"data":[{"subject":"","pubKeyHash":"AA=="}]}`))
+}
+
+// base64 fields (StdEncoding.DecodeString as the OneCRL decoder uses it) and decodePkixName
+func genB64(g *zv.Gen) {
+	r := g.Rng
+	// exhaustive: all strings of length <= 5 (thorough: 6) over a 5-symbol alphabet hitting every branch of decodeQuantum
+	syms := []byte{'A', '/', '=', '\n', '!'}
+	var rec func(cur []byte, left int)
+	rec = func(cur []byte, left int) {
+		g.Emitf("c15 b64-dec %s", hx(cur))
+		if left == 0 {
+			return
+		}
+		for _, c := range syms {
+			rec(append(append([]byte{}, cur...), c), left-1)
+		}
+	}
+	rec(nil, g.N(5, 6))
+	alpha := []byte("ABCDEFGHIJKLMNOPQRSTUVWXYZabcdefghijklmnopqrstuvwxyz0123456789+/")
+	for i, n := 0, g.N(1500, 60000); i < n; i++ {
+		b := r.Bytes(r.Intn(14))
+		if r.Chance(10) {
+			b = r.Bytes(14 + r.Intn(40))
+		}
+		g.Emitf("c15 b64-enc %s", hx(b))
+		e := []byte(b64(b))
+		switch r.Intn(8) {
+		case 0: // as is
+		case 1: // line breaks anywhere
+			for k, nk := 0, 1+r.Intn(3); k < nk; k++ {
+				p := r.Intn(len(e) + 1)
+				e = append(e[:p:p], append([]byte{[]byte("\r\n")[r.Intn(2)]}, e[p:]...)...)
+			}
+		case 2: // truncated
+			e = e[:r.Intn(len(e)+1)]
+		case 3: // one character replaced (outside the alphabet, padding, boundary characters)
+			if len(e) > 0 {
+				e[r.Intn(len(e))] = []byte("=!-_ @[`{:.\x00\xff\t")[r.Intn(14)]
+			}
+		case 4: // trailing garbage / extra padding
+			e = append(e, []string{"=", "==", "A", "\n", "\n=", "AA", "AAA", "A=", "AA=\nx"}[r.Intn(9)]...)
+		case 5: // unpadded
+			e = []byte(strings.TrimRight(string(e), "="))
+		case 6: // random over alphabet + padding + line breaks
+			e = e[:0]
+			for k, nk := 0, r.Intn(12); k < nk; k++ {
+				switch r.Intn(10) {
+				case 0:
+					e = append(e, '=')
+				case 1:
+					e = append(e, '\n')
+				default:
+					e = append(e, alpha[r.Intn(64)])
+				}
+			}
+		case 7: // non-canonical trailing bits (non-strict decoder accepts them)
+			if len(b)%3 != 0 && len(e) >= 4 {
+				p := len(e) - 2
+				if len(b)%3 == 1 {
+					p = len(e) - 3
+				}
+				e[p] = alpha[r.Intn(64)]
+			}
+		}
+		g.Emitf("c15 b64-dec %s", hx(e))
+	}
+	// every byte value as a single character in each position of a quantum: the whole decode map, boundaries included
+	for c := 0; c < 256; c++ {
+		for pos := 0; pos < 4; pos++ {
+			q := []byte("AAAA")
+			q[pos] = byte(c)
+			g.Emitf("c15 b64-dec %s", hx(q))
+		}
+	}
+	// decodePkixName
+	names := [][]byte{issuerDER[0], issuerDER[1], issuerDER[2], issuerDER[3], subjectDER[0], subjectDER[1], {}, {0x30, 0x00}, {0x30, 0x05, 0x01},
+		{0x31, 0x00}, {0x30, 0x00, 0x00}, {0x05, 0x00}}
+	for i, n := 0, g.N(300, 5000); i < n; i++ {
+		raw := names[r.Intn(len(names))]
+		if r.Chance(15) {
+			raw = append([]byte{}, raw...)
+			if len(raw) > 0 {
+				raw[r.Intn(len(raw))] ^= byte(1 << r.Intn(8))
+			}
+		}
+		s := b64(raw)
+		switch r.Intn(6) {
+		case 0:
+			s = s[:r.Intn(len(s)+1)]
+		case 1:
+			s += "!"
+		case 2:
+			s = s[:len(s)/2] + "\n" + s[len(s)/2:]
+		}
+		g.Emitf("c15 oc-name %s %s", hx([]byte(s)), ocNTbl([]ocRec{{issuerName: s}}))
+	}
 }
 
 func genSST(g *zv.Gen) {
@@ -296,12 +398,13 @@ func genSST(g *zv.Gen) {
 
 func gen(g *zv.Gen) {
 	// the two predicted panics first (D4, D5) so that a regression is reported on its minimal input
-	g.Emitf("c15 oc-parse N %s", hx([]byte(`{"data":[null]}`)))
+	g.Emitf("c15 oc-parse N ~ %s", hx([]byte(`{"data":[null]}`)))
 	bad := sstEncode(0, "CERT", []sstElem{{32, 1, 3, []byte{1, 2, 3}}}, nil)
 	g.Emitf("c15 ms-parse %s %s", hx(bad), sstTable(bad))
 	huge := sstEncode(0, "CERT", []sstElem{{32, 1, 0x7fffffff, nil}}, nil)
 	g.Emitf("c15 ms-parse %s %s", hx(huge), sstTable(huge))
 	genCRLSet(g)
 	genOneCRL(g)
+	genB64(g)
 	genSST(g)
 }
